@@ -102,8 +102,17 @@ namespace vt {
     }
     return "?";
   }
-  static const char* flag_names[] = {"DSIG_DF", "DSIG_DDF", "C_TRUESDELL", "SPATIAL_MODULI", "C_TAU_JAUMANN", "ABAQUS", "DTAU_DF", "DTAU_DDF",
-                                     "DS_DF", "DS_DDF", "DS_DC", "DS_DEGL", "DT_DELOG", "DPK1_DF", "DPK1_DDF"};
+  static std::string flag_name(const int f) {
+    using F = tfel::material::FiniteStrainBehaviourTangentOperatorBase;
+    switch (f) {
+      case F::DSIG_DF: return "DSIG_DF";
+      case F::DS_DEGL: return "DS_DEGL";
+      case F::DPK1_DF: return "DPK1_DF";
+      case F::DTAU_DDF: return "DTAU_DDF";
+      case F::C_TRUESDELL: return "C_TRUESDELL";
+    }
+    return "flag" + std::to_string(f);
+  }
   static std::string pm(const double v) {
     char b[64];
     std::snprintf(b, sizeof b, "%ld", std::lround(v * 1000));
@@ -217,7 +226,7 @@ namespace vt {
       }
     }
     IntegrationResult computePredictionOperator(const SMFlag f, const SMType t) {
-      trace.push_back("pred:" + sm_name(t) + ":" + (FS ? flag_names[int(f)] : "std"));
+      trace.push_back("pred:" + sm_name(t) + ":" + (FS ? flag_name(int(f)) : std::string("std")));
       const auto c = oracle.choose(H_PRED, 3);
       if (c == 2) hook_throw("pred");
       if (c == 1) return FAILURE;
@@ -254,7 +263,7 @@ namespace vt {
       return {o.status == 0, o.permille / 1000.};
     }
     IntegrationResult integrate(const SMFlag f, const SMType t) {
-      trace.push_back("integ:" + sm_name(t) + ":" + (FS ? flag_names[int(f)] : "std"));
+      trace.push_back("integ:" + sm_name(t) + ":" + (FS ? flag_name(int(f)) : std::string("std")));
       const auto c = oracle.choose(H_INTEG, 4);
       if (c == 2) hook_throw("integ");
       if (c == 1) return FAILURE;
@@ -635,26 +644,24 @@ namespace vt {
           } else {
             sig = *srcs[k];
           }
-          double w[9];
-          // Cauchy
-          std::memcpy(w, ref.tf1, sizeof w);
-          for (int i = 0; i != 6; ++i) w[i] = sig[i];
-          if (close(b.tf1, w, 9)) {
-            ft = std::string("cauchy:") + snames[k];
-            break;
-          }
-          std::memcpy(w, ref.tf1, sizeof w);
-          const stensor<3u, double> S = convertCauchyStressToSecondPiolaKirchhoffStress(sig, F1);
-          for (int i = 0; i != 6; ++i) w[i] = S[i];
-          if (close(b.tf1, w, 9)) {
-            ft = std::string("pk2:") + snames[k];
-            break;
-          }
-          const tensor<3u, double> P = convertCauchyStressToFirstPiolaKirchhoffStress(sig, F1);
-          for (int i = 0; i != 9; ++i) w[i] = P[i];
-          if (close(b.tf1, w, 9)) {
-            ft = std::string("pk1:") + snames[k];
-            break;
+          // the measure requested by the caller is tried first: a zero stress has the same image as Cauchy and as PK2
+          const int req = K1 < 0.5 ? 0 : (K1 < 1.5 ? 1 : 2);
+          for (int mm = 0; mm != 3 && ft == "X"; ++mm) {
+            const int m = (req + mm) % 3;
+            double w[9];
+            std::memcpy(w, ref.tf1, sizeof w);
+            if (m == 0) {
+              for (int i = 0; i != 6; ++i) w[i] = sig[i];
+            } else if (m == 1) {
+              const stensor<3u, double> S = convertCauchyStressToSecondPiolaKirchhoffStress(sig, F1);
+              for (int i = 0; i != 6; ++i) w[i] = S[i];
+            } else {
+              const tensor<3u, double> P = convertCauchyStressToFirstPiolaKirchhoffStress(sig, F1);
+              for (int i = 0; i != 9; ++i) w[i] = P[i];
+            }
+            if (close(b.tf1, w, 9)) {
+              ft = std::string(m == 0 ? "cauchy:" : m == 1 ? "pk2:" : "pk1:") + snames[k];
+            }
           }
         }
       }
@@ -676,7 +683,7 @@ namespace vt {
               std::memcpy(kk, ref.K, sizeof kk);
               for (int i = 0; i != n; ++i) kk[i] = op_sentinel(smt, fl, i);
               if (same(b.K, kk, KSIZE)) {
-                kt = "E:" + sm_name(smt) + ":" + flag_names[fl] + ":" + std::to_string(n);
+                kt = "E:" + sm_name(smt) + ":" + flag_name(fl) + ":" + std::to_string(n);
                 break;
               }
             }
@@ -701,11 +708,12 @@ namespace vt {
             s0c = convertFirstPiolaKirchhoffStressToCauchyStress(pk0, F0);
           }
         }
-        for (int which = 0; which != 2 && kt == "X"; ++which) {  // 0: prediction, 1: integration
-          for (int s = 0; s != 2 && kt == "X"; ++s) {            // integration: exported stress / zero stress
+        std::string kmatch, ktail;
+        for (int which = 0; which != 2; ++which) {  // 0: prediction, 1: integration
+          for (int s = 0; s != 2; ++s) {            // integration: exported stress / zero stress
             if (which == 0 && s == 1) continue;
             stensor<3u, double> Tsrc = (s == 0) ? Sexp : stensor<3u, double>(0.);
-            for (int k2 = 0; k2 != 4 && kt == "X"; ++k2) {
+            for (int k2 = 0; k2 != 4; ++k2) {
               double kk[KSIZE];
               std::memcpy(kk, ref.K, sizeof kk);
               const auto& Fa = F0;
@@ -752,12 +760,21 @@ namespace vt {
                 }
               }
               if (close(b.K, kk, KSIZE)) {
+                // every kind of conversion that gives the observed image is listed (the plain copy of the
+                // Green-Lagrange wrapper for DS_DEGL is the same in the three cases)
                 static const char* k2n[4] = {"DSIG_DF", "DS_DEGL", "DPK1_DF", "DTAU_DDF"};
-                kt = std::string(which == 0 ? "P:" : (s == 0 ? "I:" : "Izero:")) + k2n[k2] + ":" + sm_name(last_smt);
+                const std::string kind = which == 0 ? "P" : (s == 0 ? "I" : "Izero");
+                if (kmatch.empty()) {
+                  kmatch = kind;
+                  ktail = std::string(":") + k2n[k2] + ":" + sm_name(last_smt);
+                } else if (ktail == std::string(":") + k2n[k2] + ":" + sm_name(last_smt)) {
+                  kmatch += "/" + kind;
+                }
               }
             }
           }
         }
+        if (!kmatch.empty()) kt = kmatch + ktail;
       }
       o << " K=" << kt;
       o << " sos=" << (b.sos == ref.sos ? "U" : b.sos == 2 * ref.rho0 ? "S0" : b.sos == 2 * ref.rho1 ? "S1" : "X");
